@@ -6,6 +6,8 @@ package symx
 // stored.  Natively such a finding is confirmed by running the query from two
 // goroutines under the race detector.
 
+import "golang.org/x/tools/go/ssa"
+
 type frozenSet struct {
 	cells map[*value]bool
 	maps  map[*omap]bool
@@ -16,8 +18,15 @@ type frozenSet struct {
 func (ex *Exec) freeze(root value) {
 	fs := &frozenSet{cells: map[*value]bool{}, maps: map[*omap]bool{}, seen: map[interface{}]bool{}, hits: map[string]bool{}}
 	fs.walk(root, 0)
+	// package-level state is frozen as well; variables nothing has touched
+	// yet (zero-valued, created on first use) are materialised first
+	for _, m := range ex.eng.Pkg.Members {
+		if g, ok := m.(*ssa.Global); ok {
+			ex.global(g)
+		}
+	}
 	for _, g := range ex.globals {
-		fs.walk(g, 0) // package-level state is frozen as well
+		fs.walk(g, 0)
 	}
 	ex.frozen = fs
 }
